@@ -27,6 +27,25 @@ INITIAL = [
     ({"a": BODY1.encode(), "\u00e9t\u00e9 \u20ac": BODY2.encode()}, "\u00e9t\u00e9 \u20ac"),
 ]
 INITIAL.append(({"a": b"", "c": b"\r\n"}, None))  # an empty script is a valid script
+
+
+def _exact_listing_store(target=4096):
+    """a store whose default LISTSCRIPTS reply is exactly `target` octets: a recv() that fills the client's read size to the brim with
+    nothing behind it"""
+    def reply_len(k):
+        srv = refms.RefServer(store={"a": b"keep;\r\n", "f" * k: b"stop;\r\n"}, active="a")
+        srv.authenticated = True
+        srv.out = b""
+        srv.do_LISTSCRIPTS([])
+        return len(srv.out)
+    k = 1000
+    for _ in range(4):
+        k += target - reply_len(k)
+    assert reply_len(k) == target, reply_len(k)
+    return {"a": b"keep;\r\n", "f" * k: b"stop;\r\n"}
+
+
+INITIAL.append((_exact_listing_store(), "a"))
 DEBUG_STORES = {4}
 CUTS = [1, 7, "cr1", "crl"]  # thorough adds 2 and -1 (see run)
 
